@@ -3,6 +3,7 @@ package props
 import (
 	"go/constant"
 	"go/types"
+	"strings"
 
 	"mrocheck/an"
 
@@ -157,10 +158,58 @@ func ruleF9(c *an.Ctx) {
 		})
 	}
 	cleared := map[string]bool{}
-	for _, m := range familyOf(p, rp, 2) {
+	isResetName := func(n string) bool {
+		n = strings.TrimSuffix(strings.TrimSuffix(n, "$thunk"), "$bound")
+		switch n {
+		case "checkedReset", "uncheckedReset", "remove", "removeAll", "reset":
+			return true
+		}
+		return false
+	}
+	// everything resetPartial does, directly or in the functions of the package it calls (depth 2) -
+	// not only private helpers: the traversal may be shared with the other restart entry points
+	fam := []*ssa.Function{rp}
+	inFam := map[*ssa.Function]int{rp: 0}
+	for i := 0; i < len(fam); i++ {
+		if inFam[fam[i]] >= 2 {
+			continue
+		}
+		an.Instrs(fam[i], func(in ssa.Instruction) {
+			if cl := an.AsCallAny(in); cl != nil {
+				if g := cl.Common().StaticCallee(); g != nil && g.Blocks != nil && g.Pkg == rp.Pkg && g.Signature.Recv() != nil && strings.Contains(g.Signature.Recv().Type().String(), "core.Fork") {
+					if _, seen := inFam[g]; !seen {
+						inFam[g] = inFam[fam[i]] + 1
+						fam = append(fam, g)
+					}
+				}
+			}
+		})
+	}
+	// a reset method handed on as a value (`self.eachJobMetadata((*Metadata).checkedReset)`) and applied by a helper
+	resetValue := false
+	for _, m := range fam {
+		an.Instrs(m, func(in ssa.Instruction) {
+			for _, op := range in.Operands(nil) {
+				if fv, ok := (*op).(*ssa.Function); ok && isResetName(fv.Name()) {
+					if cl := an.AsCallAny(in); cl == nil || cl.Common().Value != ssa.Value(fv) {
+						resetValue = true
+					}
+				}
+			}
+		})
+	}
+	for _, m := range fam {
 		an.Instrs(m, func(in ssa.Instruction) {
 			cl := an.AsCallAny(in)
-			if cl == nil || cl.Common().StaticCallee() == nil || len(cl.Common().Args) == 0 {
+			if cl == nil || len(cl.Common().Args) == 0 {
+				return
+			}
+			if cl.Common().StaticCallee() == nil {
+				if resetValue && !cl.Common().IsInvoke() {
+					if name := forkField(cl.Common().Args[0]); name != "" {
+						cleared[name] = true
+					}
+				}
 				return
 			}
 			switch cl.Common().StaticCallee().Name() {
